@@ -1251,12 +1251,22 @@ name_parse(u8 *packet, int length, int *idx, char *name_out, int name_out_len) {
 		}
 		if (cp + label_len >= end) return -1;
 		if (j + label_len > length) return -1;
+		/* A label holding a '.' or a NUL cannot be told from several
+		 * labels (or from the end of the name) once it has become a
+		 * dotted C string, so it cannot be presented faithfully. */
+		if (memchr(packet + j, '.', label_len) ||
+		    memchr(packet + j, '\0', label_len))
+			return -1;
 		memcpy(cp, packet + j, label_len);
 		cp += label_len;
 		j += label_len;
 	}
 	if (cp >= end) return -1;
 	*cp = '\0';
+	/* RFC 1035 2.3.4: a name is at most 255 octets on the wire, that is
+	 * 253 characters in dotted form.  Anything longer could not be encoded
+	 * again (for instance to echo a question in a response). */
+	if (cp - name_out > 253) return -1;
 	if (name_end < 0)
 		*idx = j;
 	else
